@@ -98,6 +98,13 @@ def run_prune_oracle(ctx, ncases):
         weak = ctx.rng.random() < 0.4
         if weak:
             dens, eps = ctx.rng.choice([1000.0, 4095.0]), ctx.rng.choice([1e-2, 1e-2, 1e-3])
+        # batched FLOAT shifts on a grid (the shift-prune back-end): two identical rows, weak pathways whose amplitude
+        # lies between eps and sqrt(eps)
+        fbatch = ctx.rng.random() < 0.35
+        if fbatch:
+            weak, dens, eps = ctx.rng.random() < 0.8, 1.0, ctx.rng.choice([1e-6, 1e-8, 1e-6])
+        vec = (lambda v: np.array([[float(x) for x in v]] * 2)) if fbatch else (lambda v: np.array(v))
+        sopts = {"kgrid": 0.5} if fbatch else {}
 
         def build(tol):
             rng2 = __import__("random").Random(i * 7919 + ctx.seed)
@@ -107,8 +114,8 @@ def run_prune_oracle(ctx, ncases):
                 # its amplitude dens*sin^2(a/2) lies decades below the largest state and above the absolute tolerance
                 u = [rng2.choice([1, -1])] + [rng2.choice([0, 1, -1]) for _ in range(dim - 1)]
                 a1 = rng2.choice([1, 2]); a2 = a1 + rng2.choice([1, 2])
-                mul = lambda c: np.array([c * x for x in u])
-                seq += [epg.T(90, rng2.choice([0, 90])), epg.S(mul(a1), prune=tol), epg.T(rng2.choice([3, 5, 10]), 0), epg.S(mul(a2), prune=tol),
+                mul = lambda c: vec([c * x for x in u])
+                seq += [epg.T(90, rng2.choice([0, 90])), epg.S(mul(a1), prune=tol), epg.T(rng2.choice([0.5, 1, 2] if fbatch else [3, 5, 10]), 0), epg.S(mul(a2), prune=tol),
                         epg.T(180, 0), epg.S(mul(a2 - a1), prune=tol), epg.ADC, epg.T(180, 0), epg.S(mul(a2 - a1), prune=tol), epg.ADC]
                 return seq
             echo = rng2.random() < 0.5      # a constant gradient with refocusing pulses: every state comes back to an echo
@@ -120,15 +127,18 @@ def run_prune_oracle(ctx, ncases):
                 else:
                     seq.append(epg.T(rng2.choice([20, 45, 90, 130]), rng2.choice([0, 30, 90])))
                     v = [rng2.choice([1, -1, 2])] + [rng2.choice([0, 1, -1]) for _ in range(dim - 1)]
-                seq.append(epg.S(np.array(v), prune=tol))
+                seq.append(epg.S(vec(v), prune=tol))
                 seq.append(epg.E(rng2.choice([5, 10, 30]), 800, rng2.choice([20, 60])))
                 seq.append(epg.ADC)
             return seq
         try:
-            ref = np.asarray(epg.simulate(build(0)))
-            nst = np.asarray(epg.simulate(build(0), probe="nstate")).reshape(-1)
-            pr = np.asarray(epg.simulate(build(eps)))
-            pr0 = np.asarray(epg.simulate(build(0)))
+            ref = np.asarray(epg.simulate(build(0), **sopts))
+            nst = np.asarray(epg.simulate(build(0), probe="nstate", **sopts)).reshape(-1)
+            pr = np.asarray(epg.simulate(build(eps), **sopts))
+            pr0 = np.asarray(epg.simulate(build(0), **sopts))
+            if fbatch:
+                ref, pr, pr0 = ref[..., 0], pr[..., 0], pr0[..., 0]
+                pass
         except Exception as e:
             ctx.report("pruned simulation raised %s: %s" % (type(e).__name__, str(e)[:200]), {"eps": eps, "dim": dim, "n": n, "i": i}, found_input=True,
                        signature={"raises": type(e).__name__, "site": "prune"})
@@ -142,7 +152,7 @@ def run_prune_oracle(ctx, ncases):
         if np.any(err > 2 * eps * cum + 1e-12):
             j = int(np.argmax(err - 2 * eps * cum))
             ctx.report("pruning with eps=%g changed acquisition %d by %.3g > 2*eps*%d" % (eps, j, err[j], cum[j]),
-                       {"eps": eps, "dim": dim, "n": n, "i": i, "density": dens}, found_input=True, signature={"why": "prune-bound"})
+                       {"eps": eps, "dim": dim, "n": n, "i": i, "density": dens, "batched_float": fbatch}, found_input=True, signature={"why": "prune-bound"})
 
 
 def run_merge_oracle(ctx, ncases):
